@@ -171,7 +171,7 @@ def run(ck, facts, tier):
             lost = [(ty, l) for ty, l in dropped if origin(cfg, l, argc) != "copy"]
             if lost:
                 per_fn.setdefault(k, []).append(((t.get("fn") or "?").split("::")[-1], t.get("ln"), lost[0][0]))
-    ck.floor(R, "may-call-db-sites-in-logic", n_sites, 20)
+    ck.floor(R, "may-call-db-sites-in-logic", n_sites, 12)
     for k, b in facts.bodies("chalk_engine").items():
         if k.startswith("chalk_engine::logic::SolveState::") and "{" not in k:
             if k in per_fn:
